@@ -106,6 +106,22 @@ PROPS = {
         "rule": "the 19 CODE list-surgery instructions by NAME on tree-rich states: top CODE item of depth <= 5 with every atom kind and nested lists before atoms, second / third items drawn as random points of the top item (so that POSITION / CONTAINS / CONTAINER / SUBST / MEMBER find matches) or at random, index in [-2S, 2S] plus i32::MIN/MAX; SIZE/EXTRACT/POSITION/CONTAINS/MEMBER/CONTAINER/... compared with the points-based statements, INSERT with the metamorphic INSERT->EXTRACT relation; non-trivial = the state changed",
         "assumptions": ["items are compared structurally; floats by IEEE ==, so a NaN-carrying item never matches (stated in equals_iff)"],
     },
+    "C03": {
+        "scenarios": lambda tier, q: [
+            {"name": "parse", "args": []},
+        ],
+        "signature": lambda req: "parse",
+        "rule": "program texts: 60% balanced token trees rendered with random Unicode white space (incl. U+00A0, U+2003, U+3000, U+0085, U+2028), 40% arbitrary token sequences with arbitrary paren balance; tokens: every vector-literal corner (INT[, INT[], INT[1, BOOL[2], FLOAT[NaN], multi-byte before ']' and as last char), numeric corner cases (+5, -0, 2147483648, 1., .5, ., nan, -inf), registered instruction names, multi-byte names, 10^4-character tokens; parsed onto empty and non-empty states; the EXEC stack is compared with an independent recursive-descent tree for balanced inputs, all other stacks with the pre-state; non-trivial = the text contains at least one token",
+        "assumptions": ["nesting depth <= 4 in generated trees (native stack depth is outside the model)"],
+    },
+    "C11": {
+        "scenarios": lambda tier, q: [
+            {"name": "roundtrip", "args": []},
+        ],
+        "signature": lambda req: "roundtrip",
+        "rule": "item trees over {list, int (boundary pool + random), bool, registered instruction, parser-producible and odd names} (exact class), the same plus floats incl. non-finite, subnormal and boundary values (print-parse-print class), arbitrary items, and trees emitted by CodeGenerator::random_code: Item::to_string compared with the model's print, the text parsed back by the real parser and by the model, parse(print t) = t resp. print(parse(print t)) = print t evaluated on the implementation's outcome; non-trivial = the item is in one of the two round-trip classes",
+        "assumptions": ["FloatPrintStable (fmt3 (parse (fmt3 x)) = fmt3 x) and the white-space splitting of printed text are character-level facts about std formatting/parsing: hypotheses of the Lean theorem, validated on every generated tree by the correspondence check"],
+    },
     "C01": {
         "scenarios": lambda tier, q: [
             {"name": "exec", "args": ["*"]},
